@@ -798,6 +798,9 @@ Error Assembler::_emit(InstId inst_id, const Operand_& o0, const Operand_& o1, c
     inst_id = 0;
   }
 
+  // The instruction as requested - `inst_id` is replaced when an alternative form (LDUR/STUR) is tried.
+  const InstId requested_inst_id = inst_id;
+
   const InstDB::InstInfo* inst_info = &InstDB::_inst_info_table[inst_id];
   uint32_t encoding_index = inst_info->_encoding_data_index;
 
@@ -5265,7 +5268,7 @@ EmitDone:
 
 Failed:
 #ifndef ASMJIT_NO_LOGGING
-  return EmitterUtils::log_instruction_failed(this, err, inst_id, options, o0, o1, o2, op_ext);
+  return EmitterUtils::log_instruction_failed(this, err, requested_inst_id, options, o0, o1, o2, op_ext);
 #else
   reset_state();
   return report_error(err);
